@@ -8,7 +8,7 @@
 (*     columns counted in characters (code units);                           *)
 (*   - 15.11.4.4: the text 'Name: message' of an uncaught exception;         *)
 (*   - the initial state with the probe M(e) ("e.message is a non-empty       *)
-(*     string"), Array.prototype.forEach (15.4.4.18), the argument checks of *)
+(*     string"), the host function CB(f) that calls f, Array.prototype.forEach (15.4.4.18), the argument checks of *)
 (*     Number.prototype.toString/toFixed/toExponential/toPrecision (15.7.4)  *)
 (*     and the cycle check of JSON.stringify (15.12.3);                       *)
 (*   - the observable outcome of a run: host-call log, completion value, and *)
@@ -120,6 +120,7 @@ ErrText(st, v) ==
 -----------------------------------------------------------------------------
 (* the initial state of a C19 run *)
 S_M == <<77>>
+S_CB == <<67, 66>>
 S_stringify == <<115, 116, 114, 105, 110, 103, 105, 102, 121>>
 S_toFixed == <<116, 111, 70, 105, 120, 101, 100>>
 S_toExponential == <<116, 111, 69, 120, 112, 111, 110, 101, 110, 116, 105, 97, 108>>
@@ -129,7 +130,8 @@ Setup(fuel, tlimit) ==
     LET s0 == C!State0(fuel)
         W(H, o, n, v) == C!DefData(H, o, n, v, TRUE, FALSE, TRUE)
         m  == C!Alloc(s0, [C!OM!NewObj("Function", C!FunctionProto) EXCEPT !.fn = [k |-> "hostmsg"]])
-        fe == C!Alloc(m.st, C!Builtin("AP_forEach"))
+        cb == C!Alloc(m.st, [C!OM!NewObj("Function", C!FunctionProto) EXCEPT !.fn = [k |-> "hostcb"]])
+        fe == C!Alloc(cb.st, C!Builtin("AP_forEach"))
         np == C!Alloc(fe.st, C!OM!NewObj("Object", C!ObjectProto))          \* stands for Number.prototype
         f1 == C!Alloc(np.st, C!Builtin("NP_toString"))
         f2 == C!Alloc(f1.st, C!Builtin("NP_toFixed"))
@@ -137,7 +139,7 @@ Setup(fuel, tlimit) ==
         f4 == C!Alloc(f3.st, C!Builtin("NP_toPrecision"))
         js == C!Alloc(f4.st, C!OM!NewObj("Object", C!ObjectProto))          \* the JSON object
         sf == C!Alloc(js.st, C!Builtin("JSON_stringify"))
-        h1 == W(sf.st.H, C!GlobalObj, S_M, ObjV(m.id))
+        h1 == W(W(sf.st.H, C!GlobalObj, S_M, ObjV(m.id)), C!GlobalObj, S_CB, ObjV(cb.id))
         h2 == W(h1, C!ArrayProto, C!S_forEach, ObjV(fe.id))
         h3 == W(W(W(W(h2, np.id, S_toString, ObjV(f1.id)), np.id, S_toFixed, ObjV(f2.id)), np.id, S_toExponential, ObjV(f3.id)),
                 np.id, S_toPrecision, ObjV(f4.id))
